@@ -249,3 +249,10 @@ func init() {
 		r.Assumptions["C18: the whole-string statement for BDOS function 9 follows from the per-iteration lemmas by induction over the string length (meta-level); program, string and stack lie outside the BIOS pages 0x0000-0x0007, 0xFE06-0xFE1C, 0xFF03"] = true
 	}
 }
+
+func init() {
+	checks["C19"] = func(ld *Loaded, r *Run) {
+		r.verifyHelpers(ld, propFilter("C19"))
+		r.Assumptions["C19: stubs: flag variables hold arbitrary values after Parse; os.ReadFile returns an arbitrary slice or an error; bufio.Writer appends what is written and a nil Flush means the file holds exactly the appended bytes; a failed OS/I/O call is recorded (run may fail only then)"] = true
+	}
+}
